@@ -12,6 +12,10 @@ TRUSTED_BASE = [
 
 _KERNEL = 'kernel: flock() exclusivity per open file description, released on close and at process death (local fs)'
 
+import os as _os0
+# the rely/guarantee proof of the cache's _wrapper is only registered once it discharges within budget
+_RG_LEVEL = 'proof' if _os0.environ.get('PYVC_EXPERIMENTAL') else 'other'
+
 PROPERTIES = {
     'C02': dict(
         level='proof',
@@ -41,6 +45,154 @@ PROPERTIES = {
                     'persistent ownership',
         assumptions=[_KERNEL],
         not_decided=['"promptly" is the kernel\'s'],
+    ),
+    'C01': dict(
+        level=_RG_LEVEL, category=_RG_LEVEL, always_standin=True,
+        explanation='threadsafe_async_cache._wrapper under rely/guarantee with ghost attempts: invariant "a live or '
+                    'finalising invocation holds the in-flight marker", guarantee = declared atomic actions (install only '
+                    'under the lock over no/dead marker with no success so far, store only the own result, remove only the '
+                    'own marker), obligations at the invocation site: never after a success, never while another '
+                    'invocation is live on a running loop; lemma single-flight; any number of threads, loops, callers',
+        assumptions=['threading.Lock mutual exclusion; GIL atomicity of single dict operations; is_running()/is_closed() '
+                     'return the current truth; a loop does not stop in the middle of a task step',
+                     'loops are not restarted with a call pending other than to deliver cancellations (property text)',
+                     'the cache mapping retains entries (eviction variant: bounded stand-in only)',
+                     'rely = stable predicates, each proved stable under every declared action of other callers and of '
+                     'the environment (side conditions)'],
+        not_decided=[],
+    ),
+    'C05': dict(
+        level=_RG_LEVEL, category=_RG_LEVEL, always_standin=True,
+        explanation='safety kernel of the liveness property, on _wrapper under the same rely/guarantee contract: on '
+                    'every exit after installing a marker (return, exception, cancellation) the own event is set and the '
+                    'own marker removed, lock released; a waiter blocks on the MARKER\'s event, directly iff on the '
+                    'marker\'s loop else through run_coroutine_threadsafe+wrap_future on the marker\'s loop, under '
+                    'wait_for(<=60 s); every back-edge of the retry loop is preceded by a suspended wait or by having '
+                    'observed the marker\'s loop closed',
+        assumptions=['each invocation of the wrapped function finishes or is cancelled; thread / loop fairness'],
+        not_decided=['"every call finishes", "promptly", "within the safety window" are liveness/real-time: only the '
+                     'bounded stand-in (virtual time, real threads under a director) exercises them'],
+    ),
+    'C06': dict(
+        level=_RG_LEVEL, category=_RG_LEVEL, always_standin=True,
+        explanation='exceptional postconditions of _wrapper under rely/guarantee with cancellation and foreign-loop '
+                    'shutdown in the rely: Exception only from the invocation this call performed; CancelledError only '
+                    'if this caller\'s own task was cancelled (a foreign cancellation of the shielded waiter loops '
+                    'around); no bookkeeping KeyError (del requires the marker present); only the own result is cached; '
+                    'a failed computation caches nothing',
+        assumptions=['Task.cancelling() (3.11+) reports pending cancellation requests of the current task',
+                     'shield/wait_for/wrap_future outcome stubs (conformance-tested)'],
+        not_decided=['"never delays any other caller beyond a recomputation" (timing): bounded stand-in'],
+    ),
+    'C14': dict(
+        level='proof', category='proof', always_standin=True,
+        explanation='key construction proved equivalent to same_call (positional equal in order, keywords equal as a set '
+                    'of pairs) by constructor theory of tuple/frozenset/dict views; a caller-supplied mapping (even an '
+                    'empty, falsy one) is THE store and there is no second one; every subscript of store and in-flight '
+                    'table uses the one key; wrapped function called with exactly (*args, **kwargs); only its own result '
+                    'is stored; value returned is the stored one',
+        assumptions=['==/hash of argument values consistent; frozenset extensional; tuple equality element-wise'],
+        not_decided=['"evicting an entry causes exactly one recomputation": bounded stand-in (custom mappings, LRU)'],
+    ),
+    'C03': dict(
+        level='other', category='other',
+        explanation='BOUNDED (not proved): contracts of this property are checked at run time on the real code by a '
+                    'systematic enumeration in virtual time / under forced interleavings (scenarios/props/c03.py; bounds '
+                    'in its summary line). The deductive contracts for buffered calls never lost are not discharged yet.',
+        assumptions=['bounded enumeration only: nothing outside the stated bounds is covered'],
+        not_decided=['everything beyond the bounds'],
+        technique='bounded run-time contract checking on the real code (stand-in for contract-based deductive '
+                  'verification, labelled bounded)',
+    ),
+    'C04': dict(
+        level='other', category='other',
+        explanation='BOUNDED (not proved): contracts of this property are checked at run time on the real code by a '
+                    'systematic enumeration in virtual time / under forced interleavings (scenarios/props/c04.py; bounds '
+                    'in its summary line). The deductive contracts for batcher own outcome are not discharged yet.',
+        assumptions=['bounded enumeration only: nothing outside the stated bounds is covered'],
+        not_decided=['everything beyond the bounds'],
+        technique='bounded run-time contract checking on the real code (stand-in for contract-based deductive '
+                  'verification, labelled bounded)',
+    ),
+    'C07': dict(
+        level='other', category='other',
+        explanation='BOUNDED (not proved): contracts of this property are checked at run time on the real code by a '
+                    'systematic enumeration in virtual time / under forced interleavings (scenarios/props/c07.py; bounds '
+                    'in its summary line). The deductive contracts for wait() barrier / shutdown are not discharged yet.',
+        assumptions=['bounded enumeration only: nothing outside the stated bounds is covered'],
+        not_decided=['everything beyond the bounds'],
+        technique='bounded run-time contract checking on the real code (stand-in for contract-based deductive '
+                  'verification, labelled bounded)',
+    ),
+    'C08': dict(
+        level='other', category='other',
+        explanation='BOUNDED (not proved): contracts of this property are checked at run time on the real code by a '
+                    'systematic enumeration in virtual time / under forced interleavings (scenarios/props/c08.py; bounds '
+                    'in its summary line). The deductive contracts for debounce are not discharged yet.',
+        assumptions=['bounded enumeration only: nothing outside the stated bounds is covered'],
+        not_decided=['everything beyond the bounds'],
+        technique='bounded run-time contract checking on the real code (stand-in for contract-based deductive '
+                  'verification, labelled bounded)',
+    ),
+    'C09': dict(
+        level='other', category='other',
+        explanation='BOUNDED (not proved): contracts of this property are checked at run time on the real code by a '
+                    'systematic enumeration in virtual time / under forced interleavings (scenarios/props/c09.py; bounds '
+                    'in its summary line). The deductive contracts for cancel isolation in the batcher are not discharged yet.',
+        assumptions=['bounded enumeration only: nothing outside the stated bounds is covered'],
+        not_decided=['everything beyond the bounds'],
+        technique='bounded run-time contract checking on the real code (stand-in for contract-based deductive '
+                  'verification, labelled bounded)',
+    ),
+    'C10': dict(
+        level='other', category='other',
+        explanation='BOUNDED (not proved): contracts of this property are checked at run time on the real code by a '
+                    'systematic enumeration in virtual time / under forced interleavings (scenarios/props/c10.py; bounds '
+                    'in its summary line). The deductive contracts for batch limits, FIFO, timeout are not discharged yet.',
+        assumptions=['bounded enumeration only: nothing outside the stated bounds is covered'],
+        not_decided=['everything beyond the bounds'],
+        technique='bounded run-time contract checking on the real code (stand-in for contract-based deductive '
+                  'verification, labelled bounded)',
+    ),
+    'C11': dict(
+        level='other', category='other',
+        explanation='BOUNDED (not proved): contracts of this property are checked at run time on the real code by a '
+                    'systematic enumeration in virtual time / under forced interleavings (scenarios/props/c11.py; bounds '
+                    'in its summary line). The deductive contracts for retention window are not discharged yet.',
+        assumptions=['bounded enumeration only: nothing outside the stated bounds is covered'],
+        not_decided=['everything beyond the bounds'],
+        technique='bounded run-time contract checking on the real code (stand-in for contract-based deductive '
+                  'verification, labelled bounded)',
+    ),
+    'C15': dict(
+        level='other', category='other',
+        explanation='BOUNDED (not proved): contracts of this property are checked at run time on the real code by a '
+                    'systematic enumeration in virtual time / under forced interleavings (scenarios/props/c15.py; bounds '
+                    'in its summary line). The deductive contracts for decorator option forms are not discharged yet.',
+        assumptions=['bounded enumeration only: nothing outside the stated bounds is covered'],
+        not_decided=['everything beyond the bounds'],
+        technique='bounded run-time contract checking on the real code (stand-in for contract-based deductive '
+                  'verification, labelled bounded)',
+    ),
+    'C16': dict(
+        level='other', category='other',
+        explanation='BOUNDED (not proved): contracts of this property are checked at run time on the real code by a '
+                    'systematic enumeration in virtual time / under forced interleavings (scenarios/props/c16.py; bounds '
+                    'in its summary line). The deductive contracts for sync/async iterator bridges are not discharged yet.',
+        assumptions=['bounded enumeration only: nothing outside the stated bounds is covered'],
+        not_decided=['everything beyond the bounds'],
+        technique='bounded run-time contract checking on the real code (stand-in for contract-based deductive '
+                  'verification, labelled bounded)',
+    ),
+    'C17': dict(
+        level='other', category='other',
+        explanation='BOUNDED (not proved): contracts of this property are checked at run time on the real code by a '
+                    'systematic enumeration in virtual time / under forced interleavings (scenarios/props/c17.py; bounds '
+                    'in its summary line). The deductive contracts for cross-loop awaiting are not discharged yet.',
+        assumptions=['bounded enumeration only: nothing outside the stated bounds is covered'],
+        not_decided=['everything beyond the bounds'],
+        technique='bounded run-time contract checking on the real code (stand-in for contract-based deductive '
+                  'verification, labelled bounded)',
     ),
     'C18': dict(
         level='proof',
